@@ -296,7 +296,9 @@ def check(pid, tier, seed):
         known = known_findings(pid)
         agg = dict(runs=0, nontrivial=0, steps=0, tasks=0, sim_ns=0, max_parked=0, keys=set(), faults={}, notes={}, shapes={}, site_orders={},
                    policies={}, numcpus={}, samples=[], violations=[], known_hits={}, infra=[], probes=set(), timed_out=0, stages=[])
+        scale = float(os.environ.get("VERIF_BUDGET_SCALE", "1"))
         for si, st in enumerate(conf["tiers"][tier]):
+            st = dict(st, budget_s=st["budget_s"] * scale)
             nw = min(WORKERS, st.get("workers", WORKERS))
             ws = []
             for k in range(nw):
